@@ -594,7 +594,10 @@ call_class(
     PyObject *result;
     PyObject *args;
 
-    args = PyTuple_Pack(4, trait->handler, (PyObject *)obj, name, value);
+    /* The handler may have been deleted from the trait. */
+    args = PyTuple_Pack(
+        4, (trait->handler == NULL) ? Py_None : trait->handler,
+        (PyObject *)obj, name, value);
     if (args == NULL) {
         return NULL;
     }
